@@ -32,6 +32,16 @@ Check C16_to_string_to_number :
     to_number_str str_parse (to_string_num display x) = Ok x.
 Print Assumptions C16_to_string_to_number.
 
+(* the same from the Display contract used below (str::parse sees the '-' itself here) *)
+Theorem C16_to_string_to_number_contract : forall (display : num -> string) sp x,
+  parse_contract_signed sp -> display_contract (display x) x ->
+  to_number_str sp (to_string_num display x) = Ok x.
+Proof. exact to_string_to_number_contract. Qed.
+Check C16_to_string_to_number_contract : forall (display : num -> string) sp x,
+  parse_contract_signed sp -> display_contract (display x) x ->
+  to_number_str sp (to_string_num display x) = Ok x.
+Print Assumptions C16_to_string_to_number_contract.
+
 (* ------------------------------------------------------------------ source emission -> parser
    (expr_to_source, expr_to_source_with_scope and serializable_value_to_source share print_num):
    the text is read by the number grammar, converted by the Rule::number arm, and a leading '-'
@@ -260,6 +270,8 @@ Print Assumptions C16_radix_value_is_rne.
 (* ------------------------------------------------------------------ the hypotheses are satisfiable *)
 Example parse_contract_satisfiable : parse_contract ref_str_parse.
 Proof. intros ip fp _ _ _. reflexivity. Qed.
+Example parse_contract_signed_satisfiable : parse_contract_signed ref_str_parse.
+Proof. intros s ip fp _ _ _. reflexivity. Qed.
 Example display_contract_example : display_contract (ref_display (nb 0xbfb999999999999a)) (nb 0xbfb999999999999a).
 Proof. exists "0", "1". vm_compute. repeat split; try reflexivity; discriminate. Qed.
 Example display_contract_example_big : display_contract (ref_display (nb 0x44b52d02c7e14af6)) (nb 0x44b52d02c7e14af6).
